@@ -888,15 +888,24 @@ package pipeline
 // Under the stream lock: a time-out event is queued iff the stream has been
 // blocked for the time-out and its queue is empty (first == nil - the queue
 // itself, not the len counter, which time-outs do not count in); queuing never
-// replaces a queued event; the waiting processor is signalled exactly then.
+// replaces a queued event; the waiting processor is signalled exactly then.  The
+// heartbeat calls this on a snapshot of the blocked list: the time-out is queued only
+// if the stream is blocked *now* (its owner waits in blockGet) - a stream whose owner
+// took an event since, or left, must not get one (it would be wedged, or the
+// "why events are different" panic fires on the heartbeat goroutine).
 
 //@ func (*stream).tryUnblock
 //@   option allow-exit yes
 //@   ghost aged bool = false
 //@   ghost nsig int = 0
+//@   ghost blk bool = false
 //@   ensures !held(s.mu)
-//@   ensures s != nil ==> (result ==> aged) && nsig == ite(result, 1, 0)
-//@   assert at "s.first = timeoutEvent" held(s.mu) && s.first == nil && aged
+//@   ensures s != nil ==> (result ==> aged && blk) && nsig == ite(result, 1, 0)
+//@   assert at "s.first = timeoutEvent" held(s.mu) && s.first == nil && aged && blk
+//@   callee isBlocked(st) (r)
+//@     requires st == s && held(s.mu)
+//@     pure
+//@     set blk := r
 //@   callee Since(t) (d)
 //@     pure
 //@     set aged := !(d < s.streamer.eventTimeout)
@@ -970,6 +979,10 @@ package pipeline
 // resetBlocked: the caller's stream is the one listed at its index (precondition:
 // what "is blocked" means); afterwards it is out of the list and the invariant holds
 // again - in particular the stream moved into the hole carries its new index.
+
+//@ func (*streamer).isBlocked
+//@   requires stream != nil && !held(s.blockedMu)
+//@   ensures !held(s.blockedMu) && result == (stream.blockIndex != -1)
 
 //@ func (*streamer).resetBlocked
 //@   option allow-exit yes
